@@ -756,13 +756,13 @@ Section LibProofs2.
     apply str_eqb_eq in B. auto.
   Qed.
 
-  Lemma create_Ok_inv : forall E d s t, create E d s = Ok t ->
-    exists e ps, find_entry E (lower (hd [] (tokenise s))) = Some e /\
-                 parse (e_tbl e) d s = Ok ps /\ build e ps = Ok t.
+  Lemma create_Ok_inv_toks : forall E d toks t, create_toks E d toks = Ok t ->
+    exists e ps, find_entry E (lower (hd [] (toks))) = Some e /\
+                 parse_toks (e_tbl e) d toks = Ok ps /\ build e ps = Ok t.
   Proof.
-    intros E d s t H. unfold create in H. destruct (length (tokenise s) <? 2)%nat; [discriminate|].
-    destruct (find_entry E (lower (hd [] (tokenise s)))) as [e|] eqn:F; [|discriminate].
-    destruct (parse (e_tbl e) d s) as [ps|] eqn:P; [|discriminate].
+    intros E d toks t H. unfold create_toks in H. destruct (_ <? 2)%nat; [discriminate|].
+    destruct (find_entry E (lower (hd [] (toks)))) as [e|] eqn:F; [|discriminate].
+    destruct (parse_toks (e_tbl e) d toks) as [ps|] eqn:P; [|discriminate].
     exists e, ps. auto.
   Qed.
 
@@ -774,10 +774,10 @@ Section LibProofs2.
   Qed.
 
   (* FAITHFULNESS of create_transport *)
-  Lemma faithful_create : forall E d s t, entries_wf E = true -> create E d s = Ok t ->
+  Lemma faithful_create_toks : forall E d toks t, entries_wf E = true -> create_toks E d toks = Ok t ->
     exists e itok parts ps,
-      tokenise s = itok :: parts /\ In e E /\ t_iface (e_tbl e) = lower itok /\ tr_kind t = e_kind e /\
-      parse (e_tbl e) d s = Ok ps /\
+      toks = itok :: parts /\ In e E /\ t_iface (e_tbl e) = lower itok /\ tr_kind t = e_kind e /\
+      parse_toks (e_tbl e) d toks = Ok ps /\
       (* each constructor argument: the parsed attribute, else the constructor's default *)
       (forall p, get p (tr_args t) = option_map (norm_arg (e_kind e) p) (arg_source e ps p)) /\
       (* the parsed attributes are exactly what the string / the defaults give for the table's names *)
@@ -789,28 +789,55 @@ Section LibProofs2.
          get p ps = if mem p (names (e_tbl e)) then get p d else None) /\
       (forall p, ~ In p (names (e_tbl e)) -> get p ps = None).
   Proof.
-    intros E d s t WF H. destruct (create_Ok_inv E d s t H) as [e [ps [F [P B]]]].
+    intros E d toks t WF H. destruct (create_Ok_inv_toks E d toks t H) as [e [ps [F [P B]]]].
     destruct (find_entry_Some _ _ _ F) as [I Hi].
-    destruct (faithful_parse py_int py_hex py_float (e_tbl e) d s ps (entries_wf_In E e WF I) P)
+    destruct (faithful_parse_toks py_int py_hex py_float (e_tbl e) d toks ps (entries_wf_In E e WF I) P)
       as [itok [parts [Tk [Hl [C1 [C2 [C3 C4]]]]]]].
     exists e, itok, parts, ps. rewrite Tk in Hi. simpl in Hi.
     destruct (build_Ok_inv e ps t B) as [K _].
     repeat split; auto. apply (build_get e ps t B).
   Qed.
 
-  Lemma create_parse_Err : forall E d s e,
-    find_entry E (lower (hd [] (tokenise s))) = Some e -> parse (e_tbl e) d s = Err -> create E d s = Err.
+  Lemma create_parse_Err_toks : forall E d toks e,
+    find_entry E (lower (hd [] (toks))) = Some e -> parse_toks (e_tbl e) d toks = Err -> create_toks E d toks = Err.
   Proof.
-    intros E d s e F P. unfold create. destruct (length (tokenise s) <? 2)%nat; [reflexivity|].
+    intros E d toks e F P. unfold create_toks. destruct (_ <? 2)%nat; [reflexivity|].
     rewrite F, P. reflexivity.
   Qed.
 
-  Lemma create_unknown_interface : forall E d s,
-    find_entry E (lower (hd [] (tokenise s))) = None -> create E d s = Err.
+  Lemma create_unknown_interface_toks : forall E d toks,
+    find_entry E (lower (hd [] (toks))) = None -> create_toks E d toks = Err.
   Proof.
-    intros E d s F. unfold create. destruct (length (tokenise s) <? 2)%nat; [reflexivity|].
+    intros E d toks F. unfold create_toks. destruct (_ <? 2)%nat; [reflexivity|].
     rewrite F. reflexivity.
   Qed.
+
+  Lemma create_Ok_inv : forall E d s t, create E d s = Ok t ->
+    exists e ps, find_entry E (lower (hd [] (tokenise s))) = Some e /\
+                 parse (e_tbl e) d s = Ok ps /\ build e ps = Ok t.
+  Proof. intros E d s. exact (create_Ok_inv_toks E d (tokenise s)). Qed.
+
+  Lemma faithful_create : forall E d s t, entries_wf E = true -> create E d s = Ok t ->
+    exists e itok parts ps,
+      tokenise s = itok :: parts /\ In e E /\ t_iface (e_tbl e) = lower itok /\ tr_kind t = e_kind e /\
+      parse (e_tbl e) d s = Ok ps /\
+      (forall p, get p (tr_args t) = option_map (norm_arg (e_kind e) p) (arg_source e ps p)) /\
+      (forall p v, last_kw p (filter is_kw parts) = Some v ->
+         exists prm x, find_param p (t_kw (e_tbl e)) = Some prm /\ type_kw (pty prm) v = Some x /\ get p ps = Some x) /\
+      (forall k prm tok, nth_error (t_pos (e_tbl e)) k = Some prm -> nth_error (filter is_pos parts) k = Some tok ->
+         exists x, type_pos (pty prm) tok = Some x /\ get (pname prm) ps = Some x) /\
+      (forall p, given_nothing (e_tbl e) parts p ->
+         get p ps = if mem p (names (e_tbl e)) then get p d else None) /\
+      (forall p, ~ In p (names (e_tbl e)) -> get p ps = None).
+  Proof. intros E d s. exact (faithful_create_toks E d (tokenise s)). Qed.
+
+  Lemma create_parse_Err : forall E d s e,
+    find_entry E (lower (hd [] (tokenise s))) = Some e -> parse (e_tbl e) d s = Err -> create E d s = Err.
+  Proof. intros E d s. exact (create_parse_Err_toks E d (tokenise s)). Qed.
+
+  Lemma create_unknown_interface : forall E d s,
+    find_entry E (lower (hd [] (tokenise s))) = None -> create E d s = Err.
+  Proof. intros E d s. exact (create_unknown_interface_toks E d (tokenise s)). Qed.
 
   (* IPv6 / bracketed host at the level of create *)
   Lemma host_first_inv : forall e, host_first e = true ->
